@@ -93,6 +93,11 @@ func genC12(g *gen) {
 	}
 }
 
+func (w *World) spawnCloser(m *Mgr) {
+	simrt.GoNamed(fmt.Sprintf("c%d/late-closer", m.Idx), "closer", func() { w.doClose(m, 1) })
+	w.faultsInc("close")
+}
+
 // clientLibTasks returns the live library-spawned tasks of manager m (tasks created by a go
 // statement inside the library, directly or indirectly on behalf of the manager's client side).
 func (w *World) clientLibTasks(m *Mgr) []string {
@@ -119,9 +124,7 @@ func afterC12(w *World) {
 	// make sure every manager gets closed
 	for _, m := range w.mgrs {
 		if !m.closed && m.ready {
-			mm := m
-			simrt.GoNamed(fmt.Sprintf("c%d/late-closer", m.Idx), "closer", func() { w.doClose(mm, 1) })
-			w.faultsInc("close")
+			w.spawnCloser(m)
 		}
 	}
 	// phase 1: Close itself must return (fair, no gate opens, nothing heals, no server restarts)
@@ -137,7 +140,7 @@ func afterC12(w *World) {
 		if !m.ready || !m.closed {
 			continue
 		}
-		waited := w.simTime - m.closeInvokedAt
+		waited := w.elapsed() - m.closeInvokedAt
 		if m.CloseSeq == 0 && waited < 10*time.Second {
 			continue // invoked too recently to judge
 		}
